@@ -766,6 +766,74 @@ func init() {
 		}
 		return "ok"
 	})
+	registerEval("supersede", func(a []string) string {
+		// supersede <kind> <n> <depth> <moveA> <moveB>: n times on a fresh engine (wired as the binaries wire it: ONE search
+		// object per engine): play moveA, start a deep analysis and supersede it at once (Halt, play moveB, analyse at <depth>) -
+		// exactly what the driver does on `position` + `go` during a search. The superseding search must return what the same
+		// search returns on an engine that never ran the first one (the halted search may still be unwinding, or entering its next
+		// iteration, while its successor runs).
+		kind := a[0]
+		n, _ := strconv.Atoi(a[1])
+		depth, _ := strconv.Atoi(a[2])
+		ctx := context.Background()
+		last := func(out <-chan search.PV) string {
+			var pv search.PV
+			for p := range out {
+				pv = p
+			}
+			return fmt.Sprintf("%v/%d/%v", pv.Score, pv.Nodes, pv.Moves)
+		}
+		newE := func() *engine.Engine {
+			g := &gate{}
+			switch kind {
+			case "sargon":
+				points := &sargon.Points{}
+				s := sargon.Hook{Eval: search.AlphaBeta{Explore: sargon.SkipUnderPromotions, Eval: sargon.OnePlyIfChecked{Leaf: search.Leaf{Eval: gateEval{points, g}}}}, Hook: points}
+				return engine.New(ctx, "SARGON", "x", s, engine.WithOptions(engine.Options{}))
+			case "turochamp":
+				s := search.AlphaBeta{Eval: search.Quiescence{Explore: turochamp.ConsiderableMovesOnly, Eval: search.Leaf{Eval: gateEval{turochamp.Eval{}, g}}}}
+				return engine.New(ctx, "TUROCHAMP", "x", s, engine.WithOptions(engine.Options{}))
+			case "bernstein":
+				s := search.AlphaBeta{Explore: bernstein.PlausibleMoveTable{Limit: 7}.Explore, Eval: search.Leaf{Eval: gateEval{bernstein.Eval{Factor: 8}, g}}}
+				return engine.New(ctx, "BERNSTEIN", "x", s, engine.WithOptions(engine.Options{}))
+			default:
+				s := search.AlphaBeta{Eval: search.Leaf{Eval: gateEval{eval.Material{}, g}}}
+				return engine.New(ctx, "plain", "x", s, engine.WithOptions(engine.Options{}))
+			}
+		}
+		solo := newE()
+		if solo.Move(ctx, a[3]) != nil || solo.Move(ctx, a[4]) != nil {
+			return "err-move"
+		}
+		out, err := solo.Analyze(ctx, searchctl.Options{DepthLimit: lang.Some(uint(depth))})
+		if err != nil {
+			return "err-analyze"
+		}
+		want := last(out)
+		for i := 0; i < n; i++ {
+			e := newE()
+			e.Move(ctx, a[3])
+			outA, err := e.Analyze(ctx, searchctl.Options{DepthLimit: lang.Some(uint(6))})
+			if err != nil {
+				return "err-analyze"
+			}
+			go func() {
+				for range outA {
+				}
+			}()
+			e.Halt(ctx)
+			e.Move(ctx, a[4])
+			outB, err := e.Analyze(ctx, searchctl.Options{DepthLimit: lang.Some(uint(depth))})
+			if err != nil {
+				return "err-analyze"
+			}
+			if got := last(outB); got != want {
+				return fmt.Sprintf("MISMATCH run=%d superseding=%s alone=%s", i, strings.ReplaceAll(got, " ", "_"), strings.ReplaceAll(want, " ", "_"))
+			}
+			e.Halt(ctx)
+		}
+		return "ok"
+	})
 	register("c18", func(o *Out, r *rand.Rand, thorough bool) {
 		n := 16
 		if thorough {
@@ -804,6 +872,21 @@ func init() {
 			ms := playoutMoves(r, fen.Initial, 3)
 			o.do(fmt.Sprintf("published noise %d %s", r.Int63n(1000), strings.Join(ms, " ")))
 			o.Count("noise")
+		}
+		// a search superseding one that is still unwinding (or entering its next iteration) returns what it returns alone
+		sn := 150
+		if thorough {
+			sn = 4000
+		}
+		for _, sc := range []string{"sargon %d 2 e2e4 e7e5", "sargon %d 2 d2d4 g8f6", "turochamp %d 1 e2e4 e7e5", "bernstein %d 2 e2e4 e7e5", "plain %d 3 e2e4 d7d5"} {
+			k := sn
+			if !strings.HasPrefix(sc, "sargon") {
+				k = sn / 5
+			}
+			line := "published supersede " + fmt.Sprintf(sc, k)
+			o.do(line)
+			o.Count("supersede")
+			o.Nontrivial(line)
 		}
 	})
 }
